@@ -14,6 +14,7 @@
 (*   depth_m/depth_ft  the conversion chosen by substring tests              *)
 (*   update_start_stop_step   which of the three values come from the index  *)
 (*   to_csv            which header lines mnemonics= / units= / units_loc= give *)
+(*   read_policy       which substitutions are in force (hyphen heuristic)    *)
 (*   encoding choice   which codec a file on disk is opened with (BOM,       *)
 (*                     encoding=, ad hoc trial of ascii / windows-1252 /     *)
 (*                     latin-1 on the FIRST line) when chardet is not asked  *)
@@ -150,10 +151,30 @@ CsvHeader(mn, un, loc) ==
 \* ---- ignore_data -------------------------------------------------------------------------------------------
 IgnoreData(flag, rows) == IF flag THEN 0 ELSE rows          \* length of every declared curve
 
+\* ---- read_policy substitutions and the hyphen heuristic ---------------------------------------------------
+\* row kinds (three declared curves): plain "1.5 2.5 3.5", neg "1.5 -2.5 3.5", runon "1.5 2.5-3.5", runon3 "1.5-2.5-3.5",
+\* cdec "1,5 2,5 3,5", dots "1.5 1.2.3".  Policies as sets of substitution names.
+PolicySubs(pol) == CASE pol = "default" -> {"comma-decimal-mark", "run-on(-)", "run-on(.)"}
+                     [] pol = "hyphen" -> {"run-on(-)"}
+                     [] pol = "dots" -> {"run-on(.)", "comma-decimal-mark"}
+                     [] OTHER -> {}
+RowHasHyphen(kind) == kind \in {"neg", "runon", "runon3"}        \* the test is: the raw line contains the character '-'
+\* run-on(-) is withdrawn when every sampled data line contains a hyphen (they might be dates) and the caller accepts recommendations
+SubsInForce(pol, accept, rows) ==
+    IF accept /\ \A i \in DOMAIN rows : RowHasHyphen(rows[i]) THEN PolicySubs(pol) \ {"run-on(-)"} ELSE PolicySubs(pol)
+RowNumeric(kind, subs) == CASE kind \in {"plain", "neg"} -> TRUE
+                            [] kind \in {"runon", "runon3"} -> "run-on(-)" \in subs
+                            [] kind = "cdec" -> "comma-decimal-mark" \in subs
+                            [] kind = "dots" -> "run-on(.)" \in subs
+\* "numeric": three float curves holding the values the substitutions produce; anything else (text columns, ValueError) is "other"
+ReadPolicyOutcome(pol, accept, rows) ==
+    LET subs == SubsInForce(pol, accept, rows)
+    IN IF \A i \in DOMAIN rows : RowNumeric(rows[i], subs) THEN "numeric" ELSE "other"
+
 \* ---- instances -----------------------------------------------------------------
 Perms(S) == {p \in [1..Cardinality(S) -> S] : \A i, j \in DOMAIN p : i # j => p[i] # p[j]}
 Values == {"999.25", "-999.25", "9999.25", "-9999.25", "999", "-999", "9999.99", "2147483647", "32767", "-0.5", "7", "-9999"}
-Stage1 == {"stack", "null", "unit", "dtypes", "route", "enc", "unitdet", "depth", "sss", "csv", "igdata"}
+Stage1 == {"stack", "null", "unit", "dtypes", "route", "enc", "unitdet", "depth", "sss", "csv", "igdata", "readpol"}
 DetUnits == {"FT", "ft", "F", "M", "m", "METRES", "0.1IN", "S", "", "MM"}
 Fine(k) ==
     CASE k = "stack" ->
@@ -190,6 +211,10 @@ Fine(k) ==
                m \in {"true", "false", "list", "empty"}, u \in {"true", "false", "list", "empty"}, lc \in {"line", "[]", "()", "none"}}
       [] k = "igdata" ->
            {[kind |-> "igdata", flag |-> f, rows |-> n, expect |-> IgnoreData(f, n)] : f \in BOOLEAN, n \in 0..3}
+      [] k = "readpol" ->
+           {[kind |-> "readpol", rows |-> r, policy |-> pol, accept |-> a, expect |-> ReadPolicyOutcome(pol, a, r)] :
+               r \in [1..2 -> {"plain", "neg", "runon", "runon3", "cdec", "dots"}] \cup [1..3 -> {"plain", "neg", "runon", "dots"}],
+               pol \in {"default", "hyphen", "dots", "none"}, a \in BOOLEAN}
 Init == stage = 0 /\ inst = [kind |-> "seed"]
 Next == \/ stage = 0 /\ stage' = 1 /\ \E k \in Stage1 : inst' = [kind |-> k]
         \/ stage = 1 /\ stage' = 2 /\ \E x \in Fine(inst.kind) : inst' = x
